@@ -418,6 +418,18 @@ def run(ctx):
     else:
         r11.note("GroupedSection.to_json_dict no longer rewrites the type; the placement obligation still holds on its own")
     rules.append(r11)
+    # the dump file is written under the caller's path: a scratch file that is moved into place afterwards is named by
+    # the tempfile API (shared with C14.R5)
+    from .c18 import scratch_name_obligations
+    r12 = Rule("C16", "C16.R12", "a dump is written to the caller's path or through a uniquely named scratch file", floor=0,
+               necessary="two dumps sharing one scratch file name write each other's survey into the other's file")
+    n_scratch = scratch_name_obligations(ctx, r12)
+    jd = repo.cls("pyxform.survey_element:SurveyElement").methods.get("json_dump")
+    if jd is not None:
+        pj = [c for c in walk_own(jd.node) if isinstance(c, ast.Call) and call_name(c) == "print_pyobj_to_json"]
+        r12.check(len(pj) == 1 and len(pj[0].args) == 2 and isinstance(pj[0].args[1], ast.Name) and pj[0].args[1].id == "path" or n_scratch > 0 and len(pj) == 1, "SurveyElement.json_dump:target",
+                  "the dump is printed to the caller's path (or to a scratch file judged above)", jd.loc())
+    rules.append(r12)
     return rules
 
 
